@@ -593,7 +593,7 @@ func c13xPools(obs c13xObs) []string {
 }
 
 func c13xSuite(r *Result, rng *rand.Rand, tier string) {
-	maxN, extra, maxFaults := 5, 150, 5
+	maxN, extra, maxFaults := 5, 350, 5
 	if tier == "thorough" {
 		maxN, extra, maxFaults = 9, 3000, 1000
 	} else if tier == "search" {
